@@ -105,11 +105,12 @@ PROFILES = {
     "subq": dict(
         property="C08",
         oracles=["O8"],
-        weights=_w(mutate=5, mutate_w=8, filter=7, arrange=6, slice_head=7, group_by=5, ungroup=2, summarize=6, select=2, rename=2, join=3, union=1, alias=4, ref=0, collect=0, uuid_regime=1),
-        mutate_kinds=dict(ref=1, tag=4, add=1, lit=1),
+        weights=_w(mutate=5, mutate_w=8, filter=7, arrange=6, slice_head=7, group_by=5, ungroup=2, summarize=6, select=2, rename=2, join=3, union=1, alias=4, ref=4, collect=0, uuid_regime=1),
+        mutate_kinds=dict(ref=2, tag=4, add=1, lit=1),
         window_kinds=WIN,
         summarize_kinds=dict(agg=5, arith_agg=1),
-        refarg_mix=dict(r=0, c=3, o=3, n=1),
+        refarg_mix=dict(r=2, c=3, o=3, n=1),
+        max_probes=6,
         p_alias_keep=0.0,
         force_replicas=["polars", "sqlite"],
         crash_subjects={},
@@ -166,5 +167,8 @@ def make_cfg(run_seed: int, profile_name: str, tier: str, *, population: str = "
         sessions=r.randint(*sess),
         p_share=r.uniform(*psh),
         cq_replicas=list(p.get("cq_replicas", [])),
+        # C08 profile: half of the runs hold references (SubqueryError recovery then uses
+        # alias(keep_col_refs=True)), the other half address columns by name only (plain alias())
+        hold_refs=(r.random() < 0.5) if profile_name == "subq" else True,
     )
     return cfg
